@@ -137,7 +137,7 @@ fn subj_race(kind: &'static str, end: &'static str) -> Body {
 }
 
 /// C11/C19: a combinator over subjects fed from two threads
-fn comb2(comb: &'static str, post: &'static str, end2: &'static str) -> Body {
+fn comb2(comb: &'static str, post: &'static str, end2: &'static str, end1: &'static str) -> Body {
   Box::new(move || {
     let s1 = Sbj::new("subject");
     let s2 = Sbj::new("subject");
@@ -166,9 +166,9 @@ fn comb2(comb: &'static str, post: &'static str, end2: &'static str) -> Body {
       _ => o,
     };
     meta(serde_json::json!({"kind": "comb2", "comb": comb, "post": post, "observers": ["A"],
-      "sources": {"p1": [1, 2], "p2": [11, 12]}, "end1": "c", "end2": end2}));
+      "sources": {"p1": [1, 2], "p2": [11, 12]}, "end1": end1, "end2": end2}));
     let _sub = subscribe_rec(&o, "A");
-    let h1 = producer(s1.clone(), "p1", vec![1, 2], "c");
+    let h1 = producer(s1.clone(), "p1", vec![1, 2], end1);
     let h2 = producer(s2.clone(), "p2", vec![11, 12], end2);
     let _ = h1.join();
     let _ = h2.join();
@@ -573,6 +573,10 @@ pub fn catalogue() -> Vec<(String, Vec<&'static str>)> {
   for c in ["combine_latest", "sequence_equal", "switch_on_next", "take_until", "skip_until", "sample"] {
     v.push((format!("comb2:{}:none:e", c), vec!["C19", "C07"]));
   }
+  // the first input fails while the second one (trigger / sibling) is still emitting or completing
+  for c in ["take_until", "skip_until", "sample", "amb", "switch_on_next", "concat", "merge", "zip"] {
+    v.push((format!("comb2:{}:none:c:e", c), vec!["C19", "C07"]));
+  }
   v.push(("merge3".to_string(), vec!["C11", "C19", "C07"]));
   for k in ["subject", "behavior", "replay"] {
     v.push((format!("subj_join:{}:1", k), vec!["C12", "C07"]));
@@ -623,7 +627,8 @@ pub fn build(name: &str) -> Option<Body> {
   let p: Vec<&'static str> = name.split(':').map(leak).collect();
   match p[0] {
     "subj_race" if p.len() == 3 => Some(subj_race(p[1], p[2])),
-    "comb2" if p.len() == 4 => Some(comb2(p[1], p[2], p[3])),
+    "comb2" if p.len() == 4 => Some(comb2(p[1], p[2], p[3], "c")),
+    "comb2" if p.len() == 5 => Some(comb2(p[1], p[2], p[3], p[4])),
     "subj_join" if p.len() == 3 => Some(subj_join(p[1], p[2].parse().ok()?)),
     "unsub_race" if p.len() == 2 => Some(unsub_race(p[1])),
     "sched_op" if p.len() == 4 => Some(sched_op(p[1], p[2], p[3] == "1")),
